@@ -264,6 +264,9 @@ def main(tier):
     _Z, _A = np.meshgrid(np.arange(-3, 126), np.arange(-3, 1001), indexing='ij')
     _Z2, _S = np.meshgrid(np.arange(-3, 126), np.arange(-3, 13), indexing='ij')
     st['calls'] += execlib.independence(ck, 'c11', 'shipped', [('AugerRate', _Z.ravel(), _A.ravel()), ('AugerYield', _Z2.ravel(), _S.ravel())], orders=('given', 'reversed', 'each-twice'))
+    # ... and the tables are those of data/*.dat whatever the build environment (a tree with leftovers, XRAYLIB_DIR, MALLOC_PERTURB_, CR LF data files)
+    st['calls_in_builds_of_dirty_trees'] = execlib.dirty_tree(ck, 'c11', 'shipped', [('AugerRate', _Z.ravel()[::3], _A.ravel()[::3]), ('AugerYield', _Z2.ravel(), _S.ravel())])
+    st['calls'] += st['calls_in_builds_of_dirty_trees']
     cov = dict(evaluations=st['calls'], distinct_nontrivial=st['pos_rate'] + st['pos_yield'],
                rule='AugerRate over Z in [-3,125] x every macro value in [-3,1000], AugerYield over Z x shell in [-3,12] (plus FluorYield / '
                     'CosKronTransProb on the same grid as inputs); expectation from independently parsed auger_rates.dat, transition class and '
